@@ -1,5 +1,6 @@
 ----------------------------- MODULE CompatLoop -----------------------------
-(* X03 - compio-compat: a runtime driven by a foreign event loop loses nothing while the host sleeps.
+(* C03 / C02, external-event-loop clause (first built as extension check X03) - compio-compat: a runtime driven
+   by a foreign event loop loses nothing while the host sleeps.
 
    Implementation-shaped model of  RuntimeCompat::drive  (compio-compat/src/lib.rs) with the two unix
    adapters (sys/unix/{mod,tokio,futures}.rs) ON TOP OF the runtime model of Wakeup.tla (Mode = "external"):
@@ -9,7 +10,8 @@
      - what the futures of a program wait for besides cross-thread wakes: I/O operations (submission queue
        entry -> kernel -> completion entry -> poll_entries -> local wake), timers (wheel -> due -> wake() at
        the end of poll_with -> local wake) and blocking jobs (pool thread: completed.send, Notify::wake;
-       runtime: poll_blocking, which makes Proactor::poll return early on io_uring),
+       runtime: poll_blocking / poll_completed at the start of Proactor::poll; flush() reports a non-empty
+       completed channel),
      - the local wake (Local::schedule: make_hot + the driver's waker on the runtime thread) and the wake
        of the JoinHandle when a task finishes,
      - the adapter loop, one action per step of drive():
@@ -28,9 +30,11 @@
        (notifier, operation), and the host's reactor (HTurn).
 
    Deviations from what a reader would expect are named: XLeaveTimedOut (a zero-timeout poll that finds the
-   completion queue empty returns before set_awake), XPollBlocking (poll returns after poll_blocking without
-   resetting the flag or draining the completion queue).  `mut` switches realistic breaking changes of drive()
-   on (control configurations: every one of them must violate).                                            *)
+   completion queue empty returns before set_awake).  `mut` switches realistic breaking changes of drive()
+   on (control configurations: every one of them must violate), among them the two repaired defects of the
+   driver: "oldFlush" (flush() looked only at the AwakeFlag, fixed finding C03-compat-blocking-completion-wake-wiped)
+   and "oldPollBlocking" (io_uring poll returned after poll_blocking without reset / submit / drain, fixed finding
+   C03-compat-iour-poll-blocking-skips-drain); "old" = both, the driver as it was.                          *)
 EXTENDS Wakeup
 
 CONSTANTS Hosts,       \* subset of {"tokio", "futures"}; the host is chosen in the initial state
@@ -39,7 +43,7 @@ CONSTANTS Hosts,       \* subset of {"tokio", "futures"}; the host is chosen in 
           Jobs,        \* blocking jobs    (names)
           Owner,       \* [Ops \cup Timers \cup Jobs -> {"main"} \cup Tasks \cup {"none"}]; "none" = nobody waits for it any more
           Muts,        \* subset of {"none", "clearAfterPoll", "ignoreFlush", "noTimeout", "noFlush",
-                       \*            "flushSeesCompleted", "drainAfterBlocking", "repaired"}
+                       \*            "oldFlush", "oldPollBlocking", "old"}   ("none" = the code as it is)
           AnyTurn      \* TRUE: the host's reactor may run at any time (reactor on another thread);
                        \* FALSE: only while the loop is parked in the host (current-thread host)
 
@@ -60,13 +64,21 @@ VARIABLES host, mut,
           wres,        \* what the last wait returned: "ready" | "timedout" | "none"
           fin,         \* [Tasks -> BOOLEAN] task finished
           done,        \* the future given to execute() is ready
-          skipped,     \* the last Proactor::poll returned after poll_blocking and left completions undrained
-          hasC         \* polling driver: has_completed, read from the completed channel at the start of poll
+          skipped,     \* the last Proactor::poll returned after poll_blocking and left completions undrained (old behaviour only)
+          hasC         \* what the runtime thread last saw of the completed channel: flush(): !completed_rx.is_empty();
+                       \* poll(): has_completed (polling driver) / the result of poll_blocking (io_uring)
 
 xvars == <<host, mut, xpc, opSt, opBatch, tmSt, jobSt, jobTaken, got, regSig, hEdge, hReady, tmo, wres, fin, done, skipped, hasC>>
 allvars == <<vars, xvars>>
 
 Srcs == Ops \cup Timers \cup Jobs
+\* the two repairs of the driver (the code as it is; the controls "oldFlush" / "oldPollBlocking" / "old" switch them off):
+\* flush() also reports an entry waiting in the completed channel; io_uring poll goes on (without waiting) to reset,
+\* submit and drain the completion queue after poll_blocking delivered entries
+FlushSeesCompleted == mut \notin {"oldFlush", "old"}
+DrainAfterBlocking == mut \notin {"oldPollBlocking", "old"}
+\* entries in the completed channel
+SentUntaken == {j \in Jobs : jobSt[j] \in {"sent", "write", "woke"} /\ ~jobTaken[j]}
 Targets == {"main"} \cup Tasks
 InSeq(s, x) == \E i \in 1..Len(s) : s[i] = x
 
@@ -161,30 +173,26 @@ Flushing == mut # "noFlush" /\ ~done
 XFlushArm   == pcR = "flush" /\ Flushing /\ LiftR(RFlushArm)
 XFlush      == /\ (pcR = "flush" => Flushing) /\ xpc = "run" /\ RFlush /\ SigCq /\ SubmitOps /\ UNCHANGED XRestSub
 XFlushLeave == LiftR(RFlushLeave)
-\* [awake.reset] inside flush; the loop goes on to choose the timeout
+\* [awake.reset] inside flush, then (same segment) `| !self.completed_rx.is_empty()`; the loop goes on to choose the timeout
 XFlushReset == /\ (pcR = "flush" => Flushing) /\ xpc = "run" /\ RFlushReset /\ SigCq
                /\ xpc' = "decide"
-               /\ UNCHANGED <<host, mut, opSt, opBatch, tmSt, jobSt, jobTaken, got, hReady, tmo, wres, fin, done, skipped, hasC>>
+               /\ hasC' = (FlushSeesCompleted /\ SentUntaken # {})
+               /\ UNCHANGED <<host, mut, opSt, opBatch, tmSt, jobSt, jobTaken, got, hReady, tmo, wres, fin, done, skipped>>
 \* control "noFlush": drive() does not call flush at all
 XNoFlush == /\ xpc = "run" /\ pcR = "flush" /\ mut = "noFlush" /\ ~done
-            /\ pcR' = "extWait" /\ extNotified' = FALSE /\ xpc' = "decide"
+            /\ pcR' = "extWait" /\ extNotified' = FALSE /\ xpc' = "decide" /\ hasC' = FALSE
             /\ UNCHANGED <<flag, efd, armed, sqNotif, needPush, cq, batch, owed, syncq, pending, sched, scheduling, hot, reg,
                            cond, seen, pcW, wNotified, needWait, drained, inKernel, lastPopped, lastOv>>
-            /\ UNCHANGED <<host, mut, opSt, opBatch, tmSt, jobSt, jobTaken, got, regSig, hEdge, hReady, tmo, wres, fin, done, skipped, hasC>>
+            /\ UNCHANGED <<host, mut, opSt, opBatch, tmSt, jobSt, jobTaken, got, regSig, hEdge, hReady, tmo, wres, fin, done, skipped>>
 
 \* ------------------------------------------------------------------ the adapter
 AU == <<flag, efd, armed, sqNotif, needPush, cq, batch, owed, syncq, pending, sched, scheduling, hot, reg,
         cond, seen, pcW, wNotified, needWait, drained, inKernel, lastPopped, extNotified, lastOv>>   \* vars without pcR
 
-\* hypothetical repairs (never the code as it is): flush() also reports an entry waiting in the completed channel;
-\* poll goes on to drain the completion queue after poll_blocking
-FlushSeesCompleted == mut \in {"flushSeesCompleted", "repaired"}
-DrainAfterBlocking == mut \in {"drainAfterBlocking", "repaired"}
-SentUntaken == {j \in Jobs : jobSt[j] \in {"sent", "write", "woke"} /\ ~jobTaken[j]}
 \* timeout = if remaining_tasks { ZERO } else { current_timeout() }
 ADecide ==
   /\ xpc = "decide" /\ pcR = "extWait"
-  /\ tmo' = IF hot # <<>> \/ (extNotified /\ mut # "ignoreFlush") \/ (FlushSeesCompleted /\ SentUntaken # {}) THEN "zero"
+  /\ tmo' = IF hot # <<>> \/ ((extNotified \/ hasC) /\ mut # "ignoreFlush") THEN "zero"
             ELSE IF mut # "noTimeout" /\ \E t \in Timers : tmSt[t] \in {"armed", "due"} THEN "timer"
             ELSE "none"
   /\ xpc' = "wait"
@@ -243,17 +251,20 @@ AClear ==
 \* ------------------------------------------------------------------ [drv.poll] poll_with(ZERO) = Proactor::poll(ZERO) + timers
 JobOwners(S) == {Owner[j] : j \in S}
 
-\* io_uring: `if self.poll_blocking() { return Ok(()) }` - the entries of the completed channel are delivered
-\* (set_result wakes the owner) and poll returns: no reset, no submit, no set_awake, the completion queue is NOT drained
+\* io_uring: `let has_blocking = self.poll_blocking()` - the entries of the completed channel are delivered
+\* (set_result wakes the owner); poll then goes on with need_wait = !reset() && !has_blocking: reset, arm, submit without
+\* waiting, set_awake, poll_entries, set_awake.
+\* As it was (control "oldPollBlocking"): `if self.poll_blocking() { return Ok(()) }` - no reset, no submit, no
+\* set_awake, the completion queue is NOT drained
 XPollBlocking ==
   /\ xpc = "pollb" /\ pcR = "reset" /\ Driver = "iour" /\ SentUntaken # {}
   /\ jobTaken' = [j \in Jobs |-> jobTaken[j] \/ j \in SentUntaken]
   /\ WakeOwners(JobOwners(SentUntaken)) /\ SigCq
-  /\ IF DrainAfterBlocking THEN pcR' = pcR /\ xpc' = "run"             \* hypothetical repair: go on with the poll
-                           ELSE pcR' = "pollMain" /\ xpc' = "timers"
+  /\ IF DrainAfterBlocking THEN pcR' = pcR /\ xpc' = "run" /\ hasC' = TRUE
+                           ELSE pcR' = "pollMain" /\ xpc' = "timers" /\ hasC' = FALSE
   /\ skipped' = (~DrainAfterBlocking /\ (cq' > 0 \/ \E o \in Ops : opSt[o] = "cqe"))
   /\ UNCHANGED WRest
-  /\ UNCHANGED <<host, mut, opSt, opBatch, tmSt, jobSt, got, hReady, tmo, wres, fin, done, hasC>>
+  /\ UNCHANGED <<host, mut, opSt, opBatch, tmSt, jobSt, got, hReady, tmo, wres, fin, done>>
 
 \* nothing in the completed channel (io_uring) / polling driver: has_completed is read here, before the reset
 XPollNoBlocking ==
@@ -268,8 +279,8 @@ XArm   == LiftR(RArm)
 XEnter == xpc = "run" /\ REnter /\ SigCq /\ SubmitOps /\ UNCHANGED XRestSub
 
 \* io_uring, submit_auto(ZERO, need_wait): with need_wait the call asks for one completion; none there = TimedOut,
-\* and `?` leaves poll before set_awake / poll_entries / set_awake
-TimedOutCase == Driver = "iour" /\ needWait /\ cq = 0 /\ \A o \in Ops : opSt[o] # "cqe"
+\* and `?` leaves poll before set_awake / poll_entries / set_awake.  need_wait = !reset() && !has_blocking
+TimedOutCase == Driver = "iour" /\ needWait /\ ~hasC /\ cq = 0 /\ \A o \in Ops : opSt[o] # "cqe"
 XLeaveTimedOut ==
   /\ xpc = "run" /\ pcR = "leave" /\ TimedOutCase
   /\ pcR' = "pollMain" /\ xpc' = "timers"
@@ -426,27 +437,28 @@ Quiet == /\ \A w \in Wakers : pcW[w] = "done"
 XStuck == Parked /\ ~WillWake /\ Quiet /\ ~TimeoutNow
 NeverStuckX == ~XStuck
 
-\* KNOWN DEVIATION (finding X03-blocking-completion-wake-wiped): an entry of the completed channel whose Notify::wake
-\* fell between the two set_awake of Proactor::poll (io_uring: around poll_entries; polling: around the event loop of
-\* with_events) is invisible to flush(): the second set_awake wipes NOTIFIED and the host sleeps over the entry
+\* REPAIRED (fixed finding C03-compat-blocking-completion-wake-wiped, control "oldFlush"): an entry of the completed
+\* channel whose Notify::wake fell between the two set_awake of Proactor::poll (io_uring: around poll_entries; polling:
+\* around the event loop of with_events) was invisible to flush(): the second set_awake wipes NOTIFIED and the host
+\* slept over the entry.  The predicate names the state the old behaviour strands (no checked property refers to it any
+\* more; Gen_CompatLoop marks the schedules in which flush's look at the channel is decisive: hit1)
 BlockingDeviation == \E j \in Jobs : jobSt[j] = "woke" /\ ~jobTaken[j]
-\* KNOWN DEVIATION (finding X03-iour-poll-blocking-skips-drain): poll returned after poll_blocking although the adapter
-\* had already consumed the eventfd signal of completions that are still in the queue (needs an entry whose
-\* set_result wakes nobody, otherwise the owner's wake rescues the round)
+\* REPAIRED (fixed finding C03-compat-iour-poll-blocking-skips-drain, control "oldPollBlocking"): poll returned after
+\* poll_blocking although the adapter had already consumed the eventfd signal of completions that are still in the
+\* queue (needs an entry whose set_result wakes nobody, otherwise the owner's wake rescues the round)
 SkippedDeviation == Driver = "iour" /\ skipped
 Strict == Submitted /\ TimerCovered /\ NoStrandedCompletion /\ NeverStuckX
-RealSafe == Real => (Submitted /\ TimerCovered /\ (BlockingDeviation \/ SkippedDeviation \/ (NoStrandedCompletion /\ NeverStuckX)))
-\* the code as it is against the strict property: violated exactly by the known deviation (programs with jobs)
-FindingStrict == Real => Strict
+\* the code as it is: the strict property, no allowance
+RealSafe == Real => Strict
 \* one invariant per control: the mutated loop must break it
 CtlClearAfterPoll == mut = "clearAfterPoll" => (NoStrandedCompletion /\ NeverStuckX)
 CtlIgnoreFlush    == mut = "ignoreFlush" => NeverStuckX
 CtlNoTimeout      == mut = "noTimeout" => TimerCovered
 CtlNoFlush        == mut = "noFlush" => (Submitted /\ NeverStuckX)
-\* the hypothetical repairs: which of them restores the strict property
-RepFlushSeesCompleted == mut = "flushSeesCompleted" => Strict
-RepDrainAfterBlocking == mut = "drainAfterBlocking" => Strict
-RepBoth == mut = "repaired" => Strict
+\* the repaired defects switched back on: each alone (and both) must break the strict property
+CtlOldFlush        == mut = "oldFlush" => Strict
+CtlOldPollBlocking == mut = "oldPollBlocking" => Strict
+CtlOld             == mut = "old" => Strict
 
 \* liveness (fair specification, no state constraint): the future given to execute() completes - which needs every
 \* wake-up, completion and timer of the program to be delivered
